@@ -514,11 +514,17 @@ def load_config(config_path):
 def store_config(config_path, config):
     # Write to a temporary file in the same folder and rename it atomically,
     # so that concurrent runs never observe (or leave behind) a partially written config file.
+    # a config file that is a symbolic link (dotfiles kept elsewhere) stays one: the link target is replaced
+    config_path = os.path.realpath(config_path)
     fd, tmp_path = tempfile.mkstemp(dir=os.path.dirname(config_path),
                                     prefix=os.path.basename(config_path) + ".", suffix=".tmp")
     try:
         with os.fdopen(fd, 'w') as f_out:
             json.dump(config, f_out)
+        # mkstemp creates the file with mode 0600; keep the mode a plain open(config_path, 'w') gave (umask applies)
+        umask = os.umask(0)
+        os.umask(umask)
+        os.chmod(tmp_path, 0o666 & ~umask)
         os.replace(tmp_path, config_path)
     except BaseException:
         if os.path.exists(tmp_path):
